@@ -31,12 +31,15 @@ type Scn struct {
 	// AllowDeadlock: the scenario's own oracle decides about executions that end blocked;
 	// otherwise an execution that ends with main blocked is reported by the default check.
 	AllowDeadlock bool
+	Split         int // > 1: deal the first-level subtrees of the search to this many jobs
+	Weight        int // scheduling hint: heavier jobs are started first
 }
 
 // Plain is a sequential bounded-exhaustive enumeration (no scheduler involved).
 type Plain struct {
-	Name string
-	Run  func(r *Report)
+	Name   string
+	Run    func(r *Report)
+	Weight int
 }
 
 // Gen produces the scenarios of a property for a tier ("quick" or "thorough").
@@ -202,134 +205,207 @@ func class(name string) string {
 	return name
 }
 
-// RunShard explores the scenarios of prop assigned to shard (index mod nshards).
-func RunShard(prop, tier string, shard, nshards int, budget time.Duration, replayDir string, only string) *Report {
-	gen, ok := registry[prop]
-	if !ok {
-		fmt.Fprintf(os.Stderr, "unknown property %s (have %v)\n", prop, Props())
-		os.Exit(2)
-	}
-	scns, plains := gen(tier)
-	r := &Report{Prop: prop, Tier: tier, Shard: shard, Distinct: map[string]bool{}, Exhaustive: true, MinBound: 1 << 30, replays: replayDir}
-	t0 := time.Now()
-	if budget > 0 {
-		r.deadline = t0.Add(budget)
-	}
-	idx := 0
-	for _, sc := range scns {
-		mine := idx%nshards == shard
-		idx++
-		if only != "" && sc.Name != only {
-			continue
-		}
-		if !mine && only == "" {
-			continue
-		}
-		r.curName = sc.Name
-		if r.Expired() {
-			r.Skipped++
-			r.Exhaustive = false
-			continue
-		}
-		r.Scenarios++
-		opts := sc.Opts
-		opts.Deadline = r.deadline
-		if v := os.Getenv("VERIF_MAXSTEPS"); v != "" {
-			fmt.Sscan(v, &opts.MaxSteps)
-		}
-		if !opts.Unbounded && !opts.UseCache {
-			opts.UseCache = true
-		}
-		ts := time.Now()
-		vsc := &verifrt.Scenario{Name: sc.Name, Body: sc.Body, Check: func(o *verifrt.Outcome) []string {
-			var out []string
-			for _, f := range judge(prop, sc, o) {
-				out = append(out, f.Sig+"|"+f.Msg)
-			}
-			return out
-		}}
-		st, viol := verifrt.Explore(vsc, opts)
-		r.Execs += int64(st.Execs)
-		r.Complete += int64(st.Complete)
-		r.Pruned += int64(st.Pruned)
-		r.Steps += st.Steps
-		r.States += int64(st.States)
-		r.Nontrivial += int64(st.Nontrivial)
-		r.Deadlocks += int64(st.Deadlocks)
-		for k := range st.Finals {
-			if len(r.Distinct) < 2000000 {
-				r.Distinct[fmt.Sprintf("%s#%x", sc.Name, k)] = true
-			}
-		}
-		if opts.Unbounded {
-			r.Unbounded++
-		} else {
-			if opts.Bound > r.MaxBound {
-				r.MaxBound = opts.Bound
-			}
-			if opts.Bound < r.MinBound {
-				r.MinBound = opts.Bound
-			}
-		}
-		if st.Exhaustive {
-			r.ScenariosOK++
-		} else {
-			r.Exhaustive = false
-			r.Caps = append(r.Caps, fmt.Sprintf("%s: %s after %d executions", sc.Name, st.CapHit, st.Execs))
-		}
-		if st.Aborted > 0 {
-			r.Aborts = append(r.Aborts, fmt.Sprintf("%s: %d aborted executions, first: %s", sc.Name, st.Aborted, st.FirstAbort))
-		}
-		if len(r.Samples) < 3 && st.First != nil {
-			r.Samples = append(r.Samples, map[string]any{"scenario": sc.Name, "bound": opts.Bound, "unbounded": opts.Unbounded,
-				"executions": st.Execs, "states": st.States, "first_execution_log": trunc(st.First.Log, 40), "first_execution_steps": st.First.Steps})
-		}
-		seen := map[string]bool{}
-		for _, v := range viol {
-			f := splitFail(v.Msg)
-			if seen[f.Sig] {
-				continue
-			}
-			seen[f.Sig] = true
-			path := writeReplay(replayDir, prop, map[string]any{"property": prop, "tier": tier, "scenario": sc.Name, "kind": "schedule",
-				"signature": f.Sig, "message": f.Msg, "bound": opts.Bound, "unbounded": opts.Unbounded, "choices": v.Choices,
-				"log": trunc(v.Outcome.Log, 200), "blocked": v.Outcome.Blocked, "spinners": v.Outcome.Spinners, "live": v.Outcome.Live, "panic": firstLines(v.Outcome.Panic, 30)})
-			r.Violations = append(r.Violations, ViolationRec{Sig: f.Sig, Msg: f.Msg, Scenario: sc.Name, Replay: path})
-		}
-		r.PerScenario = append(r.PerScenario, fmt.Sprintf("%s execs=%d complete=%d states=%d steps=%d exh=%v viol=%d %.2fs", sc.Name, st.Execs, st.Complete, st.States, st.Steps, st.Exhaustive, len(viol), time.Since(ts).Seconds()))
-	}
-	for _, p := range plains {
-		mine := idx%nshards == shard
-		idx++
-		if only != "" && p.Name != only {
-			continue
-		}
-		if !mine && only == "" {
-			continue
-		}
-		r.curName = p.Name
-		if r.Expired() {
-			r.Skipped++
-			r.Exhaustive = false
-			continue
-		}
-		r.Scenarios++
-		before := r.Exhaustive
-		r.Exhaustive = true
-		ts := time.Now()
-		e0 := r.Evals
-		p.Run(r)
-		if r.Exhaustive {
-			r.ScenariosOK++
-		}
-		r.PerScenario = append(r.PerScenario, fmt.Sprintf("%s evals=%d exh=%v %.2fs", p.Name, r.Evals-e0, r.Exhaustive, time.Since(ts).Seconds()))
-		r.Exhaustive = r.Exhaustive && before
-	}
+// Split, when > 1 on a scenario, deals the first-level subtrees of its search to that many jobs.
+func newReport(prop, tier, replayDir string, deadline time.Time) *Report {
+	return &Report{Prop: prop, Tier: tier, Distinct: map[string]bool{}, Exhaustive: true, MinBound: 1 << 30, replays: replayDir, deadline: deadline}
+}
+
+func (r *Report) finish(t0 time.Time) {
 	if r.MinBound == 1<<30 {
 		r.MinBound = 0
 	}
 	r.DistinctN = int64(len(r.Distinct))
 	r.WallS = time.Since(t0).Seconds()
+}
+
+func (r *Report) runScn(sc *Scn, splitIdx, splitK int) {
+	prop, tier := r.Prop, r.Tier
+	r.curName = sc.Name
+	if r.Expired() {
+		r.Skipped++
+		r.Exhaustive = false
+		return
+	}
+	r.Scenarios++
+	opts := sc.Opts
+	opts.Deadline = r.deadline
+	opts.SplitIdx, opts.SplitK = splitIdx, splitK
+	if v := os.Getenv("VERIF_MAXSTEPS"); v != "" {
+		fmt.Sscan(v, &opts.MaxSteps)
+	}
+	if !opts.Unbounded && !opts.UseCache {
+		opts.UseCache = true
+	}
+	ts := time.Now()
+	vsc := &verifrt.Scenario{Name: sc.Name, Body: sc.Body, Check: func(o *verifrt.Outcome) []string {
+		var out []string
+		for _, f := range judge(prop, sc, o) {
+			out = append(out, f.Sig+"|"+f.Msg)
+		}
+		return out
+	}}
+	st, viol := verifrt.Explore(vsc, opts)
+	r.Execs += int64(st.Execs)
+	r.Complete += int64(st.Complete)
+	r.Pruned += int64(st.Pruned)
+	r.Steps += st.Steps
+	r.States += int64(st.States)
+	r.Nontrivial += int64(st.Nontrivial)
+	r.Deadlocks += int64(st.Deadlocks)
+	for k := range st.Finals {
+		if len(r.Distinct) < 2000000 {
+			r.Distinct[fmt.Sprintf("%s#%x", sc.Name, k)] = true
+		}
+	}
+	if opts.Unbounded {
+		r.Unbounded++
+	} else {
+		if opts.Bound > r.MaxBound {
+			r.MaxBound = opts.Bound
+		}
+		if opts.Bound < r.MinBound {
+			r.MinBound = opts.Bound
+		}
+	}
+	if st.Exhaustive {
+		r.ScenariosOK++
+	} else {
+		r.Exhaustive = false
+		r.Caps = append(r.Caps, fmt.Sprintf("%s[%d/%d]: %s after %d executions", sc.Name, splitIdx, splitK, st.CapHit, st.Execs))
+	}
+	if st.Aborted > 0 {
+		r.Aborts = append(r.Aborts, fmt.Sprintf("%s: %d aborted executions, first: %s", sc.Name, st.Aborted, st.FirstAbort))
+	}
+	if len(r.Samples) < 3 && st.First != nil {
+		r.Samples = append(r.Samples, map[string]any{"scenario": sc.Name, "bound": opts.Bound, "unbounded": opts.Unbounded,
+			"executions": st.Execs, "states": st.States, "first_execution_log": trunc(st.First.Log, 40), "first_execution_steps": st.First.Steps})
+	}
+	seen := map[string]bool{}
+	for _, v := range viol {
+		f := splitFail(v.Msg)
+		if seen[f.Sig] {
+			continue
+		}
+		seen[f.Sig] = true
+		path := writeReplay(r.replays, prop, map[string]any{"property": prop, "tier": tier, "scenario": sc.Name, "kind": "schedule",
+			"signature": f.Sig, "message": f.Msg, "bound": opts.Bound, "unbounded": opts.Unbounded, "choices": v.Choices,
+			"log": trunc(v.Outcome.Log, 200), "blocked": v.Outcome.Blocked, "spinners": v.Outcome.Spinners, "live": v.Outcome.Live, "panic": firstLines(v.Outcome.Panic, 30)})
+		r.Violations = append(r.Violations, ViolationRec{Sig: f.Sig, Msg: f.Msg, Scenario: sc.Name, Replay: path})
+	}
+	r.PerScenario = append(r.PerScenario, fmt.Sprintf("%s[%d/%d] execs=%d complete=%d states=%d steps=%d exh=%v viol=%d %.2fs", sc.Name, splitIdx, splitK, st.Execs, st.Complete, st.States, st.Steps, st.Exhaustive, len(viol), time.Since(ts).Seconds()))
+}
+
+func (r *Report) runPlain(p *Plain) {
+	r.curName = p.Name
+	if r.Expired() {
+		r.Skipped++
+		r.Exhaustive = false
+		return
+	}
+	r.Scenarios++
+	before := r.Exhaustive
+	r.Exhaustive = true
+	ts := time.Now()
+	e0 := r.Evals
+	p.Run(r)
+	if r.Exhaustive {
+		r.ScenariosOK++
+	}
+	r.PerScenario = append(r.PerScenario, fmt.Sprintf("%s evals=%d exh=%v %.2fs", p.Name, r.Evals-e0, r.Exhaustive, time.Since(ts).Seconds()))
+	r.Exhaustive = r.Exhaustive && before
+}
+
+// Job is one unit of work handed to a worker process.
+type Job struct {
+	Index    int    `json:"index"` // position in the scenario list (plain enumerations follow the scenarios)
+	Name     string `json:"name"`
+	SplitIdx int    `json:"split_idx"`
+	SplitK   int    `json:"split_k"`
+	Weight   int    `json:"weight"`
+}
+
+func mustGen(prop string) Gen {
+	gen, ok := registry[prop]
+	if !ok {
+		fmt.Fprintf(os.Stderr, "unknown property %s (have %v)\n", prop, Props())
+		os.Exit(2)
+	}
+	return gen
+}
+
+// Jobs lists the work units of a property, heaviest first.
+func Jobs(prop, tier string) []Job {
+	scns, plains := mustGen(prop)(tier)
+	var out []Job
+	for i, sc := range scns {
+		k := sc.Split
+		if k < 1 {
+			k = 1
+		}
+		for j := 0; j < k; j++ {
+			out = append(out, Job{Index: i, Name: sc.Name, SplitIdx: j, SplitK: k, Weight: sc.Weight + 1000*(k-1)})
+		}
+	}
+	for i, p := range plains {
+		out = append(out, Job{Index: len(scns) + i, Name: p.Name, SplitK: 1, Weight: p.Weight})
+	}
+	sort.SliceStable(out, func(a, b int) bool { return out[a].Weight > out[b].Weight })
+	return out
+}
+
+// Serve reads jobs (JSON lines) from stdin and writes one report (JSON line) per job.
+func Serve(prop, tier, replayDir string, deadline time.Time) {
+	scns, plains := mustGen(prop)(tier)
+	dec := json.NewDecoder(os.Stdin)
+	enc := json.NewEncoder(os.Stdout)
+	for {
+		var j Job
+		if err := dec.Decode(&j); err != nil {
+			return
+		}
+		r := newReport(prop, tier, replayDir, deadline)
+		t0 := time.Now()
+		if j.Index < len(scns) {
+			r.runScn(scns[j.Index], j.SplitIdx, j.SplitK)
+		} else {
+			r.runPlain(plains[j.Index-len(scns)])
+		}
+		r.finish(t0)
+		if err := enc.Encode(r); err != nil {
+			return
+		}
+	}
+}
+
+// RunShard explores the scenarios of prop assigned to shard (index mod nshards); used for
+// debugging (-only) and single-process runs.
+func RunShard(prop, tier string, shard, nshards int, budget time.Duration, replayDir string, only string) *Report {
+	scns, plains := mustGen(prop)(tier)
+	t0 := time.Now()
+	var dl time.Time
+	if budget > 0 {
+		dl = t0.Add(budget)
+	}
+	r := newReport(prop, tier, replayDir, dl)
+	r.Shard = shard
+	idx := 0
+	for _, sc := range scns {
+		mine := idx%nshards == shard
+		idx++
+		if (only != "" && sc.Name != only) || (only == "" && !mine) {
+			continue
+		}
+		r.runScn(sc, 0, 1)
+	}
+	for _, p := range plains {
+		mine := idx%nshards == shard
+		idx++
+		if (only != "" && p.Name != only) || (only == "" && !mine) {
+			continue
+		}
+		r.runPlain(p)
+	}
+	r.finish(t0)
 	return r
 }
 
